@@ -318,6 +318,10 @@ func (ft *funcTrans) call(in ssa.CallInstruction, val *ssa.Call) {
 			w.assumptions["preconditions of "+name+" not checked here (contract is in "+c.Mode+" mode)"] = true
 			break
 		}
+		if c.InitReq[i] {
+			w.assumptions["precondition of "+name+" established by package init, not re-proved at call sites: "+r.Src] = true
+			continue
+		}
 		t := ecPre.evalBool(r.E)
 		o := ft.obligation("requires", fmt.Sprintf("call%d.%s.requires%d", ft.nCalls, shortName(name), i+1), r.Src, t.S)
 		o.Where = posStr(ft.p.SSA.Fset, in.Pos())
@@ -611,8 +615,15 @@ func (ft *funcTrans) havocDesignator(ecPre *evalCtx, e Expr, st, pre *State) {
 		return
 	}
 	if sa, ok := e.(*ESliceAll); ok && ecPre.eval(sa.X).Sort.Kind == KMap {
+		// m[..]: the contents of this one map (its row of the domain and value heaps)
+		m := ecPre.eval(sa.X)
 		for _, hh := range heaps {
-			ft.newHeapVersion(st, hh)
+			oldS := w.heapSym(st, hh)
+			nw := ft.newHeapVersion(st, hh)
+			srt := w.heapSorts[hh]
+			inner := strings.TrimSuffix(strings.TrimPrefix(srt, "(Array Int "), ")")
+			fv := w.declConstRaw(w.fresh("hv"), inner)
+			w.addFact(fmt.Sprintf("(= %s (store %s %s %s))", nw, oldS, m.S, fv))
 		}
 		return
 	}
@@ -868,6 +879,14 @@ func (ft *funcTrans) ret(x *ssa.Return) {
 	{
 		o := ft.obligation("cover", fmt.Sprintf("reach-return@b%d", ft.cur.Index), "return is reachable", "true")
 		o.Cover = true
+		o.Where = where
+		w.popFact()
+	}
+	{
+		// must-fail probe with every fact (quantified ones too) through the same pipeline as real
+		// obligations: if `false` can be proved here, everything proved at this return is vacuous
+		o := ft.obligation("probe", fmt.Sprintf("vacuity-probe@b%d", ft.cur.Index), "the assumptions on the path to this return are consistent (false is not provable)", "false")
+		o.Probe = true
 		o.Where = where
 		w.popFact()
 	}
